@@ -51,6 +51,20 @@ func (r *Run) writeShardReport(path string) {
 // "max_" are maximised), violations are unioned by fingerprint, samples and
 // notes are appended in shard order.
 func (r *Run) ForkShards(n int, extraEnv ...string) {
+	r.forkShards(os.Args[0], n, extraEnv...)
+}
+
+// ForkAux is ForkShards for an auxiliary binary of the same property (built by ./check from
+// harness/<pkg>_<name>, path in $VERIF_AUX_<NAME>): same report protocol, same merging.
+func (r *Run) ForkAux(name string, n int, extraEnv ...string) {
+	bin := os.Getenv("VERIF_AUX_" + strings.ToUpper(name))
+	if bin == "" {
+		Infra("auxiliary binary %q was not built (VERIF_AUX_%s unset)", name, strings.ToUpper(name))
+	}
+	r.forkShards(bin, n, extraEnv...)
+}
+
+func (r *Run) forkShards(bin string, n int, extraEnv ...string) {
 	dir, err := os.MkdirTemp("", "verif-shards-")
 	if err != nil {
 		Infra("%v", err)
@@ -68,7 +82,7 @@ func (r *Run) ForkShards(n int, extraEnv ...string) {
 			sem <- struct{}{}
 			defer func() { <-sem }()
 			out := filepath.Join(dir, fmt.Sprintf("shard%d.json", i))
-			cmd := exec.Command(os.Args[0], os.Args[1:]...)
+			cmd := exec.Command(bin, os.Args[1:]...)
 			cmd.Env = append(os.Environ(), fmt.Sprintf("VERIF_SHARD_IDX=%d", i), fmt.Sprintf("VERIF_SHARD_N=%d", n), "VERIF_SHARD_OUT="+out, "VERIF_TIER="+r.Tier)
 			cmd.Env = append(cmd.Env, extraEnv...)
 			cmd.Stdout = os.Stderr
